@@ -62,6 +62,22 @@ class Sub:
         pass
 
 
+def ctor_role_rules(run, db, rule='C02.freespace'):
+    """Every Wavefront(...) built inside propagation.py gets its wavelength in the wavelength slot and its dx in the dx slot."""
+    from .purity import argument_role_swaps
+    swaps = [x for x in argument_role_swaps(db, ['prysm.propagation']) if ast.unparse(x[1].func) in ('Wavefront', 'cls')]
+    ncalls = 0
+    for fi in db.module('prysm.propagation').classes['Wavefront'].methods.values():
+        ncalls += sum(1 for c in walk_no_nested(fi.node) if isinstance(c, ast.Call) and ast.unparse(c.func) == 'Wavefront')
+    if ncalls < 5:
+        raise AnalysisError('propagation: fewer than five Wavefront(...) constructions found')
+    for fi, c, slot, a in swaps:
+        run.finding(rule, fi.qual, 'Wavefront(...) %s slot' % slot, '`%s` passes `%s` as the %s of the new wavefront: the returned object reports dx and wavelength exchanged, so a second propagation step '
+                    '(free_space(z).free_space(-z), z1 then z2) uses the wrong wavelength and sampling' % (ast.unparse(c), a, slot), fi.loc(c))
+    if not swaps:
+        run.ok(rule, 'prysm.propagation.Wavefront', '%d Wavefront(...) constructions pass wavelength and dx in their own slots' % ncalls)
+
+
 def ortho_rules(run, db):
     seen = {}
     for name, direction in (('focus', 'fft2'), ('unfocus', 'ifft2')):
@@ -203,7 +219,9 @@ def check(run, db, tier):
     proxy = Proxy(run, {'C01.kernel': 'C02.kernel', 'C01.norm': 'C02.norm', 'C01.chirp': 'C02.norm', 'C01.axis': 'C02.norm'})
     run.group(c01.mdft_rules, proxy, db)
     run.group(c01.czt_rules, proxy, db)
+    run.group(c01.cache_rules, Proxy(run, {'C01.cache': 'C02.norm'}), db)
     run.group(freespace_rules, run, db)
+    run.group(ctor_role_rules, run, db)
     run.require_instances('C02.ortho', 2)
     run.require_instances('C02.pad', 3)
     run.require_instances('C02.kernel', 60)
